@@ -22,6 +22,7 @@ Next ==
        /\ Judge(i', << <<"Auth",            MonAuth(p, a, roles, e.ok)>>,
                        <<"Buffer",          MonBuffer(p, a, e.ok)>>,
                        <<"RejectUnchanged", MonRejectUnchanged(p, a, e.ok, q)>>,
+                       <<"Frame",           MonFrame(p, a, e.ok, q)>>,
                        <<"May",             MonMay(p, a, roles, e.ok)>> >>)
        /\ Drift(i', ConformsNoErr(p, a, roles, e.ok, q), e.op)
        /\ Drift(i', ConformsErr(p, a, roles, e.ok, e.err), "err:" \o e.op)
